@@ -135,6 +135,8 @@ impl OpenEventIndex {
         file: &mut File,
         index: &BTreeMap<Uuid, u64>,
     ) -> Result<(Mphf<Uuid>, u64), EventIndexError> {
+        #[cfg(feature = "verif")]
+        seglog::verif::point("flush:start", 0, seglog::verif::fd_of(file));
         // Collect all keys from the index.
         let keys: Vec<Uuid> = index.keys().cloned().collect();
         let n = keys.len() as u64;
